@@ -20,6 +20,8 @@ variable {H : Type} [DecidableEq H]
 
 deriving instance DecidableEq for Outcome
 
+instance (s s' : Store H) : Decidable (rowsPreserved s s') := by unfold rowsPreserved; infer_instance
+
 /-! ### sameButState / rowsPreserved are preorders -/
 
 theorem sameButState_refl (r : Row H) : sameButState r r :=
@@ -240,6 +242,99 @@ theorem WF.run {cfg : Cfg H} {g : Row H} (hg0 : g.id = 0) (hz : ∀ y, cfg.hashO
     intro s h hg
     rw [run_cons]
     exact ih (h.add_wf x hg hg0 hz) (h.add_keeps x hg (Or.inl hg0))
+
+/-! ### height and cumulative work of EVERY row (orphans included) -/
+
+/-- every non-root row derives its height and cumulative work from the row stored before it that carries its previous
+    hash; when there was none it starts at height 1 with only its own work -/
+def Derived (s : Store H) : Prop :=
+  ∀ r ∈ s, r.id ≠ 0 →
+    (∃ p ∈ s, p.id < r.id ∧ p.hash = r.prev ∧ r.height = p.height + 1 ∧ r.cum = p.cum + r.work) ∨
+    ((∀ p ∈ s, p.id < r.id → p.hash ≠ r.prev) ∧ r.height = 1 ∧ r.cum = r.work)
+
+instance (s : Store H) : Decidable (Derived s) := by unfold Derived; infer_instance
+
+/-- the first `s.length` rows of a store that preserves `s` are the rows of `s` up to state labels -/
+theorem rowsPreserved.prefix {s s' t : Store H} (h : rowsPreserved s (s' ++ t)) (hl : s'.length = s.length) :
+    (∀ a ∈ s, ∃ a' ∈ s', sameButState a a') ∧ (∀ a' ∈ s', ∃ a ∈ s, sameButState a a') := by
+  constructor
+  · intro a ha
+    obtain ⟨i, hi, e⟩ := List.mem_iff_getElem.1 ha
+    have hi' : i < s'.length := by omega
+    have k := h.2 i hi (by rw [List.length_append]; omega)
+    rw [List.getElem_append_left hi', e] at k
+    exact ⟨s'[i], List.getElem_mem hi', k⟩
+  · intro a' ha'
+    obtain ⟨i, hi', e⟩ := List.mem_iff_getElem.1 ha'
+    have hi : i < s.length := by omega
+    have k := h.2 i hi (by rw [List.length_append]; omega)
+    rw [List.getElem_append_left hi', e] at k
+    exact ⟨s[i], List.getElem_mem hi, k⟩
+
+theorem Derived.add {cfg : Cfg H} {s : Store H} (hd : Derived s) (hi : s.map (·.id) = List.range s.length)
+    (x : Src H) : Derived (add cfg s x).1 := by
+  have rp := rowsPreserved_add cfg s x
+  rcases add_shape cfg s x with ⟨e1, _, _⟩ | ⟨r, s', _, e2, e3, f, _⟩
+  · rw [e1]; exact hd
+  · rw [e2] at rp ⊢
+    obtain ⟨fwd, bwd⟩ := rp.prefix e3
+    obtain ⟨f1, _, f3, _, f5, f6⟩ := f
+    have hprev : r.prev = x.prev := congrArg Src.prev f3
+    intro q hq hq0
+    rcases List.mem_append.1 hq with hq' | hq'
+    · obtain ⟨a, ha, m⟩ := bwd q hq'
+      have hida : a.id < s.length := ids_lt hi ha
+      rcases hd a ha (by rw [← m.1]; exact hq0) with ⟨p, hp, k1, k2, k3, k4⟩ | ⟨k1, k2, k3⟩
+      · left
+        obtain ⟨p', hp', mp⟩ := fwd p hp
+        refine ⟨p', List.mem_append_left _ hp', ?_, ?_, ?_, ?_⟩
+        · rw [mp.1, m.1]; exact k1
+        · rw [mp.2.1, m.2.2.1]; exact k2
+        · rw [m.2.2.2.2.1, mp.2.2.2.2.1]; exact k3
+        · rw [m.2.2.2.2.2.2.2.2.2.2, mp.2.2.2.2.2.2.2.2.2.2, m.2.2.2.2.2.2.2.2.2.1]; exact k4
+      · right
+        refine ⟨?_, by rw [m.2.2.2.2.1]; exact k2,
+          by rw [m.2.2.2.2.2.2.2.2.2.2, m.2.2.2.2.2.2.2.2.2.1]; exact k3⟩
+        intro p' hp' hlt
+        rcases List.mem_append.1 hp' with hp'' | hp''
+        · obtain ⟨p, hp, mp⟩ := bwd p' hp''
+          rw [mp.2.1, m.2.2.1]
+          exact k1 p hp (by rw [← mp.1, ← m.1]; exact hlt)
+        · rw [List.mem_singleton.1 hp'', f1, m.1] at hlt
+          omega
+    · have hqr : q = r := List.mem_singleton.1 hq'
+      subst hqr
+      cases e : byHash s x.prev with
+      | some p =>
+        left
+        obtain ⟨hp, hph⟩ := byHash_some e
+        obtain ⟨p', hp', mp⟩ := fwd p hp
+        obtain ⟨g1, g2⟩ := f5 p e
+        refine ⟨p', List.mem_append_left _ hp', ?_, ?_, ?_, ?_⟩
+        · rw [mp.1, f1]; exact ids_lt hi hp
+        · rw [mp.2.1, hprev]; exact hph
+        · rw [mp.2.2.2.2.1]; exact g1
+        · rw [mp.2.2.2.2.2.2.2.2.2.2]; exact g2
+      | none =>
+        right
+        obtain ⟨g1, g2⟩ := f6 e
+        refine ⟨?_, g1, g2⟩
+        intro p' hp' hlt
+        rcases List.mem_append.1 hp' with hp'' | hp''
+        · obtain ⟨p, hp, mp⟩ := bwd p' hp''
+          rw [mp.2.1, hprev]
+          exact byHash_none.1 e p hp
+        · rw [List.mem_singleton.1 hp''] at hlt
+          omega
+
+theorem Derived.run {cfg : Cfg H} {g : Row H} (hg0 : g.id = 0) (hz : ∀ y, cfg.hashOf y ≠ g.prev)
+    (hist : List (Src H)) : ∀ {s : Store H}, WF cfg s → g ∈ s → Derived s → Derived (run cfg s hist) := by
+  induction hist with
+  | nil => intro s _ _ hd; exact hd
+  | cons x hist ih =>
+    intro s h hg hd
+    rw [run_cons]
+    exact ih (h.add_wf x hg hg0 hz) (h.add_keeps x hg (Or.inl hg0)) (hd.add h.ids x)
 
 /-! ### the events of a history -/
 
